@@ -1053,3 +1053,63 @@ func RunAllocControls(r *Report) {
 	}
 	r.Floor("alloccontrol", 7)
 }
+
+// RunNilControls runs rule nilderef on the CtlNil* examples of /verif/controls/nil.go.
+func RunNilControls(r *Report) {
+	r.Rule("nilcontrol: rule nilderef, run on the must-report and must-pass examples in /verif/controls/nil.go, reports every dereference of a value that can be nil (a missing map key, also through a helper; an ignored error; a callee that returns nil with a nil error; an unchecked field chain; a value set on one path only; a write to a nil map; a nil function value; a pointer reset before use; a typed nil pointer inside an interface) and none that cannot")
+	cw, err := controlWorld(r.verifDir)
+	if err != nil {
+		r.Fail("nilcontrol", r.MkKey("nilcontrol", "controls", "load"), "-", "cannot load the control package: "+err.Error(), nil)
+		return
+	}
+	var fns []*ssa.Function
+	for _, f := range cw.LibFuncs() {
+		if (strings.HasPrefix(f.Name(), "CtlNil") || f.Name() == "ctlFind" || f.Name() == "ctlMake" || f.Name() == "ctlMaybe") && f.Parent() == nil {
+			fns = append(fns, f)
+		}
+	}
+	sub := NewReport(r.Property, r.Tier, r.verifDir)
+	sub.table = map[string]TableEntry{}
+	sub.known = map[string]KnownFinding{}
+	sub.W = cw
+	func() {
+		defer func() {
+			if x := recover(); x != nil {
+				r.Fatal("nilderef panic on the control package: %v", x)
+			}
+		}()
+		RunNilDeref(cw, sub, newBoundsRun(cw), fns)
+	}()
+	sort.Slice(fns, func(i, j int) bool { return fnName(fns[i]) < fnName(fns[j]) })
+	for _, fn := range fns {
+		if !strings.HasPrefix(fn.Name(), "CtlNil") {
+			continue
+		}
+		reported := ""
+		for _, o := range sub.Obls {
+			if o.Rule != "nilderef" {
+				continue
+			}
+			parts := strings.Split(o.Key, "|")
+			if len(parts) < 2 || parts[1] != fnName(fn) {
+				continue
+			}
+			if o.Status == StViolation && reported == "" {
+				reported = o.Detail
+			}
+		}
+		key := r.MkKey("nilcontrol", fn.Name(), "verdict")
+		bad := strings.HasPrefix(fn.Name(), "CtlNilBad")
+		switch {
+		case bad && reported != "":
+			r.OK("nilcontrol", key, cw.Pos(fn.Pos()), "reported")
+		case bad:
+			r.Fail("nilcontrol", key, cw.Pos(fn.Pos()), "this example dereferences a value that can be nil and rule nilderef accepts it: the rule is unsound", nil)
+		case reported == "":
+			r.OK("nilcontrol", key, cw.Pos(fn.Pos()), "accepted")
+		default:
+			r.Fail("nilcontrol", key, cw.Pos(fn.Pos()), "this safe example is reported: "+reported, nil)
+		}
+	}
+	r.Floor("nilcontrol", 16)
+}
